@@ -41,7 +41,7 @@ def plan(tier, seed):
     n = 26 if tier == "quick" else 160
     for k in range(n):
         specs.append({"klass": "random", "i": k, "fill": k >= 6})
-    for k in range(4 if tier == "quick" else 24):
+    for k in range(10 if tier == "quick" else 40):
         specs.append({"klass": "history", "i": k})
     for s in specs:
         s["prop"] = ID
@@ -70,6 +70,32 @@ def requests_for(big=False, jax=True):
     return r
 
 
+def variant_of(text, rng):
+    """Same names, different dependency structure: the right-hand sides of two derivatives are swapped."""
+    try:
+        ref = RefModel.from_text(text)
+    except Exception:
+        return None
+    ds = list(ref.derivs.values())
+    if len(ds) < 2:
+        return None
+    a, b = rng.sample(ds, 2)
+    lines = text.split("\n")
+    ia = next((i for i, l in enumerate(lines) if l.startswith(a + " =")), None)
+    ib = next((i for i, l in enumerate(lines) if l.startswith(b + " =")), None)
+    if ia is None or ib is None:
+        return None
+    ra, rb = lines[ia].split("=", 1)[1], lines[ib].split("=", 1)[1]
+    lines[ia], lines[ib] = f"{a} ={rb}", f"{b} ={ra}"
+    v = "\n".join(lines)
+    try:
+        if RefModel.from_text(v).ill_formed():
+            return None
+    except Exception:
+        return None
+    return v
+
+
 def random_history(rng, other_texts):
     ops = []
     for _ in range(rng.randint(1, 8)):
@@ -77,7 +103,7 @@ def random_history(rng, other_texts):
         if k == "get_scheme":
             ops.append({"op": k, "name": rng.choice(["explicit_euler", "forward_explicit_euler", "euler", "forward_euler", "generalized_rush_larsen", "forward_generalized_rush_larsen", "hybrid_rush_larsen", "rush_larsen", "forward_rush_larsen"])})
         else:
-            ops.append({"op": k, "text": rng.choice(other_texts), "schemes": rng.choice([[], ["explicit_euler"], ["generalized_rush_larsen"]]), "c": rng.random() < 0.3})
+            ops.append({"op": k, "text": rng.choice(other_texts), "schemes": rng.choice([[], ["explicit_euler"], ["generalized_rush_larsen"], ["explicit_euler", "generalized_rush_larsen", "hybrid_rush_larsen"]]), "c": rng.random() < 0.3})
     return ops
 
 
@@ -100,6 +126,12 @@ def run_case(spec, ctx):
     reqs = requests_for(big=big, jax=(spec["i"] % 3 == 0))
     if spec["klass"] == "history":
         others = [WIDE, open(os.path.join(env.REPO, "tests/odefiles/lorentz.ode")).read(), models.gen_model(rng, Profile(mod=False), depth=2).render(rng)]
+        # edited versions of the requested model itself (same names, other dependencies): the realistic history of an edit-regenerate loop
+        for _ in range(3):
+            v = variant_of(text, rng)
+            if v:
+                others.append(v)
+                others.append(v)
         base = fresh({"text": text, "requests": reqs}, 0)
         if "fatal" in base:
             out.update(status="skipped", reason="model cannot be generated in a fresh process: " + base["fatal"][-150:])
